@@ -5,8 +5,8 @@ from srp_cases import *
 import pyref
 from props import c01, c02, c03, c04
 
-MODULES = ["WowSrp.Props.C19", "WowSrp.Props.C19Backends", "WowSrp.Props.Source.Glue.Srp"]
-THEOREMS = ["C19_modpow_agree", "C19_modpow_panic_iff", "C19_modpow_sameOutcome", "C19_bytes_agree", "C19_bytes_agree_32", "C19_toBytesLe_value", "C19_agree_calculatePasswordVerifier", "C19_agree_tryFromBigint", "C19_agree_calculateServerPublicKey", "C19_agree_calculateS", "C19_agree_calculateSessionKey", "C19_agree_fromUsernameAndPassword", "C19_agree_withSpecificPrivateKey", "C19_agree_intoProof", "C19_agree_intoServer", "C19_agree_clientTryFromBigint", "C19_agree_calculateClientPublicKey", "C19_agree_calculateClientS", "C19_agree_clientChallenge", "C19_agree_clientChallenge_eq", "C19_agree_clientChallenge_builtin", "C19_agree_runLogin_eq", "C19_agree_runLogin", "C19_neg_base_sign_fixup", "C19_no_sign_fixup", "C19_num_modpow_faithful", "C19_rug_pow_mod", "C19_rug_secure_pow_mod", "C19_rug_modpow_faithful", "C19_backends_agree_from_library_semantics", "C19_backends_agree_eq", "C19_prefix_rug_diverges", "C19_toBytesLe_faithful", "C19_source_glue_srp"]
+MODULES = ["WowSrp.Props.C19", "WowSrp.Props.C19Backends", "WowSrp.Props.Source.Glue.Srp", "WowSrp.Props.Source.Structural.C19"]
+THEOREMS = ["C19_modpow_agree", "C19_modpow_panic_iff", "C19_modpow_sameOutcome", "C19_bytes_agree", "C19_bytes_agree_32", "C19_toBytesLe_value", "C19_agree_calculatePasswordVerifier", "C19_agree_tryFromBigint", "C19_agree_calculateServerPublicKey", "C19_agree_calculateS", "C19_agree_calculateSessionKey", "C19_agree_fromUsernameAndPassword", "C19_agree_withSpecificPrivateKey", "C19_agree_intoProof", "C19_agree_intoServer", "C19_agree_clientTryFromBigint", "C19_agree_calculateClientPublicKey", "C19_agree_calculateClientS", "C19_agree_clientChallenge", "C19_agree_clientChallenge_eq", "C19_agree_clientChallenge_builtin", "C19_agree_runLogin_eq", "C19_agree_runLogin", "C19_neg_base_sign_fixup", "C19_no_sign_fixup", "C19_num_modpow_faithful", "C19_rug_pow_mod", "C19_rug_secure_pow_mod", "C19_rug_modpow_faithful", "C19_backends_agree_from_library_semantics", "C19_backends_agree_eq", "C19_prefix_rug_diverges", "C19_toBytesLe_faithful", "C19_source_glue_srp", "C19_source_structural_impls"]
 BOTH_BACKENDS = True
 RULE = ("the C01-C04 case streams (complete logins with negative and non-negative B-k*v, zero-padded results, perturbed proofs/keys, announced groups, the public-key "
         "family) run through two builds of the real crate (srp-default-math = num-bigint, srp-fast-math = rug/GMP) and both model back ends; plus the former divergence "
